@@ -395,6 +395,12 @@ func driveC19(c *driverCtx) error {
 		if err != nil {
 			return err
 		}
+		// the schema takes the trip every file header takes: serialised by the library, parsed again
+		if out, err := s.Marshal(); err == nil {
+			if s2, err := avro.SchemaFromString(string(out)); err == nil {
+				s = s2
+			}
+		}
 		codec, err := s.Codec(&T{})
 		if err != nil {
 			return err
